@@ -513,7 +513,7 @@ class StackBuilder(object):
     if mid == "linear":
       # Only the weighted-average form of Linear promises output bounds.
       omin, omax = (0.0, 1.0) if s.chance(0.5) else (None, None)
-    if mid in ("lattice", "rtl"):
+    if mid in ("lattice", "rtl", "multiunit"):
       omin, omax = init_safe_bounds(omin, omax)
     st = {
         "mid": mid,
